@@ -1,0 +1,25 @@
+// This Source Code Form is subject to the terms of the Mozilla Public
+// License, v. 2.0. If a copy of the MPL was not distributed with this
+// file, You can obtain one at http://mozilla.org/MPL/2.0/.
+
+//go:build verif
+
+package qruntime
+
+// Contracts for the deductive verifier in /verif (govc). Comment-only file: it
+// adds no code. Lines starting with //@ are parsed by govc; see /verif/DESIGN.md.
+
+// C17: a rejected registration has no effect on the dependency database (ghost counter dbWrites of
+// accepted database changes, pkg/controller/runtime/internal/dependency).
+//@ func NewAdapter
+//@   props C17 C08
+//@   requires [wired] ctrl != nil && adapterOptions.DepDB != nil && adapterOptions.State != nil && adapterOptions.RegisterWatch != nil && adapterOptions.Logger != nil
+//@   modifies dbWrites
+//@   ensures [rejected-registration-has-no-effect] result1 != nil ==> dbWrites == old(dbWrites) @C17
+// C08: the access-control lists of the adapter are private snapshots of the declaration (finding F11).
+//@   ensures [declared-inputs-are-a-private-snapshot] result1 == nil ==> result0 != nil && (len(result0.StateAdapter.Inputs) > 0 ==> fresh(result0.StateAdapter.Inputs)) &&
+//@     (len(result0.StateAdapter.Outputs) > 0 ==> fresh(result0.StateAdapter.Outputs)) @C08
+//@   loop #1
+//@     invariant [outputs-so-far] dbWrites >= old(dbWrites) && adapterOptions.DepDB != nil
+//@   loop #2
+//@     invariant [inputs-so-far] dbWrites >= old(dbWrites) && adapterOptions.DepDB != nil && adapterOptions.RegisterWatch != nil && primaryInputs != nil
